@@ -1,5 +1,6 @@
 import SFV.Model.Sched
 import SFV.Model.HWProto
+import SFV.Lemmas.RefineStack
 /-! Line protocol of the scheduler drivers (C10–C13): configuration lines, `try` / `notify` operations, state dump. -/
 namespace SFV.SchedProto
 open SFV SFV.HW SFV.HWProto SFV.Sched SFV.Gen.Sched SFV.Proto
@@ -9,6 +10,8 @@ structure DSt where
   stacks : List (Nat × Stack) := []
   targets : List (Nat × (Nat × List Nat)) := []     -- id ↦ (wanted, available stack ids)
   st : St := {}
+  refOk : Bool := true      -- `RefineStack.OkS` (cores and memory) held at every step so far: hypothesis of `sched_refines_ledger`
+  raised : Bool := false    -- some step raised (then the run is outside that theorem)
 
 def statusOfNat (n : Nat) : Option Status := Status.all.find? (fun s => s.toNat = n)
 
@@ -55,6 +58,16 @@ def outcomeStr : Outcome → String
   | .waiting => "waiting"
   | .error e => "err " ++ serrStr e
 
+/-- capacity (component `c`) of the location called `name` in the configured stacks -/
+def capOf (d : DSt) (c : Refine.Comp) (name : Nat) : Rat :=
+  match d.stacks.findSome? (fun (_, st) => st.findSome? (fun lvl => if lvl.name = name then lvl.hardware.map c.get else none)) with
+  | some v => v
+  | none => 0
+
+def hypOk (d : DSt) (op : Refine.SOp) : Bool :=
+  decide (RefineStack.OkS Refine.coresComp (capOf d Refine.coresComp) d.st op) &&
+  decide (RefineStack.OkS Refine.memoryComp (capOf d Refine.memoryComp) d.st op)
+
 def availOf (d : DSt) (t : Nat) : Option (Nat × List Stack) := do
   let (wanted, ids) ← assocGet d.targets t
   let sts ← ids.mapM (assocGet d.stacks)
@@ -90,7 +103,10 @@ def step (d : DSt) : List String → DSt × String
             match availOf d t with
             | some (wanted, avail) =>
                 let (s', o) := tryAllocate d.env d.st j stp tag hw t wanted avail
-                if op = "try" then ({ d with st := s' }, outcomeStr o ++ " | " ++ dump s')
+                if op = "try" then
+                  let isErr := match o with | .error _ => true | _ => false
+                  ({ d with st := s', refOk := d.refOk && hypOk d (.pass j stp tag hw t wanted avail),
+                            raised := d.raised || isErr }, outcomeStr o ++ " | " ++ dump s')
                 else (d, outcomeStr o)
             | none => (d, "bad-op")
         | _, _, _, _, _ => (d, "bad-op")
@@ -102,8 +118,10 @@ def step (d : DSt) : List String → DSt × String
           let os := match o with
             | .done b => s!"done {b}"
             | .error e => "err " ++ serrStr e
-          ({ d with st := s' }, os ++ " | " ++ dump s')
+          let isErr := match o with | .error _ => true | _ => false
+          ({ d with st := s', refOk := d.refOk && hypOk d (.notify j stt), raised := d.raised || isErr }, os ++ " | " ++ dump s')
       | _, _ => (d, "bad-op")
+  | ["refhyp"] => (d, s!"{d.refOk} {d.raised}")
   | ["dump"] => (d, dump d.st)
   | _ => (d, "bad-op")
 
